@@ -84,19 +84,42 @@ PROC_PATHS = ["stat", "self", "thread-self", "status", "fd", "fd/0", "ns/mnt", "
               "attr/current", "1/stat", "uptime", "fd/0/x", "root/etc", "cwd/..", "./status", "fd//0"]
 
 
+PROC_LINKS = ["self", "thread-self", "cwd", "root", "exe", "fd/0", "ns/mnt", "self/", "cwd/.."]
+
+
 def proc_jobs(rng, n, idbase=0, handle_deny_choices=((), ("fsopen",), ("fsopen", "open_tree"))):
+    """A grid (link-ish paths x flag sets x follow) first, then random fill."""
+    flagsets = [O["PATH"], O["RDONLY"], O["PATH"] | O["NOFOLLOW"], O["RDONLY"] | O["NOFOLLOW"], O["RDONLY"] | O["DIRECTORY"],
+                O["PATH"] | O["DIRECTORY"], O["RDONLY"] | O["CREAT"], O["RDWR"] | O["TMPFILE"],
+                O["RDONLY"] | O["EXCL"], O["WRONLY"] | O["CREAT"] | O["EXCL"]]
+    grid = []
+    for p in PROC_LINKS:
+        for fl in flagsets[:4]:
+            grid.append(("proc_open", p, fl, True))
+    for p in PROC_LINKS[:5]:
+        grid.append(("proc_readlink", p, 0, False))
+        grid.append(("proc_open", p, O["PATH"], False))
+    rng.shuffle(grid)
     jobs = []
     i = idbase
-    for _ in range(n):
+    for idx in range(n):
         i += 1
         base = rng.choice(["root", "self", "thread"])
-        p = rng.choice(PROC_PATHS)
-        k = rng.choice(["proc_open", "proc_open", "proc_readlink"])
+        if idx < len(grid) and idx < (2 * n) // 3:
+            k, p, fl, follow = grid[idx]
+            if p in ("self", "thread-self", "self/"):
+                base = "root"
+            elif base == "root":
+                base = "self"
+        else:
+            p = rng.choice(PROC_PATHS)
+            k = rng.choice(["proc_open", "proc_open", "proc_readlink"])
+            fl = rng.choice(flagsets)
+            follow = rng.random() < 0.4
         op = {"k": k, "base": base, "path": H(p)}
         if k == "proc_open":
-            op["flags"] = rng.choice([O["PATH"], O["RDONLY"], O["PATH"] | O["NOFOLLOW"], O["RDONLY"] | O["DIRECTORY"],
-                                      O["PATH"] | O["DIRECTORY"], O["RDONLY"] | O["CREAT"], O["RDWR"] | O["TMPFILE"]])
-            op["follow"] = rng.random() < 0.4
+            op["flags"] = fl
+            op["follow"] = follow
         jobs.append({"id": i, "op": op, "handle_deny": list(rng.choice(handle_deny_choices)), "meta": {"path": p}})
     return jobs
 
